@@ -33,6 +33,9 @@ def hostile(tier):
         add('arr.err.assign.e%d' % k, lambda g, k=k: [T(('arr', [N(1), ('except', [B('+', N(10), CALL([B('+', N(20), CALL([E(k), N(30)]))]))], [('assign', '_le', N(1))]), N(3)])), T(V('_le'))])
         add('arr.err.inarr.e%d' % k, lambda g, k=k: [T(('arr', [N(1), ('except', [('arr', [N(11), ('arr', [N(12), CALL([('arr', [N(13), E(k)])])])])], []), N(3)]))])
         add('arr.err.loop.e%d' % k, lambda g, k=k: [T(('arr', [N(1), ('except', [('foreach', [B('+', N(10), CALL([('if', B('==', V('_x'), g.hf([1, 2, 3])), [E(k)], None), V('_x')]))], ('arr', [N(1), N(2)]))], []), N(3)]))])
+    # a throw / an error inside a handler belongs to the next enclosing handler (and the handler never re-enters itself)
+    add('throw.in.catch', lambda g: [T(('arr', [N(1), ('try', [('try', [('if', g.hb(), [('throw', g.hf([1, 2]))], None), N(3)], [('throw', B('+', V('_exception'), N(10)))])], [B('*', V('_exception'), N(2))]), N(6)]))])
+    add('throw.in.catch.deep', lambda g: [T(('arr', [N(1), ('try', [B('+', N(100), CALL([('try', [('throw', N(4))], [('arr', [N(7), CALL([('if', g.hb(), [('throw', N(5))], None), N(8)])])])]))], [V('_exception')]), N(6)]))])
     add('novalue.blocks', lambda g: [T(('arr', [CALL([]), CALL([('assign', '_q', N(1))]), ('if', g.hb(), [], [('private', '_r', N(2))]), ('foreach', [], ('arr', [N(1)])), N(9)]))])
     add('loop.accum.for', lambda g: [('for', '_i', N(0), g.hf([0, 1, 2, 3]), None, [('arr', [N(1), N(2), CALL([N(3)])]), T(N(1001)), B('+', N(1), N(2))]), T(N(1002))])
     add('loop.accum.while', lambda g: [('private', '_i', N(0)), ('while', [B('<', V('_i'), g.hf([0, 1, 2, 3]))], [('arr', [V('_i'), CALL([('exitwith', ('bool', False), [N(1)]), N(3)])]), T(N(1003)), ('assign', '_i', B('+', V('_i'), N(1)))]), T(N(1004))])
